@@ -14,8 +14,14 @@
    tree (C05_tokens_parse), the one-pass parser accepts it and emits the generator's code, and the round trip
    holds from the token list (C05_token_roundtrip, C05_token_code_roundtrip); literal texts denote their values
    (C05_int_text, C05_quote_text; the text of a float is a premise `parse_float (ftext b) = inr b` per float
-   written: float printing is not modelled).  Bytes -> tokens (the lexer on the written text) is exercised by the
-   harness only.  The statement over `fam`/`blocks_of` with an arbitrary nested type name is FALSE
+   written: float printing is not modelled).  The last link, bytes -> tokens, is Proofs/LexWrite.v: for token lists whose
+   texts are what the lexer produces for their type (`lexable`: ASCII identifiers that are not keywords, digit strings,
+   float texts with a fraction or an exponent, quoted bodies without raw quote / newline, the fixed keywords and
+   punctuation) the lexer reads `render ts` (texts joined by any non-empty ASCII white space) back as exactly those
+   tokens plus tEOF (C05_lex_render), hence for the writer's output C05_text_roundtrip: the TEXT of a value is accepted
+   by Parse, and executing the compiled program and binding the result into a zero target yields exactly the value.
+   Premises that remain on the caller: keys and block types are non-keyword ASCII identifiers and each float written
+   has a float text that parses to it (`lex_ok`, `gtext_ok`): float printing is not modelled.  The statement over `fam`/`blocks_of` with an arbitrary nested type name is FALSE
    at tree level (C05_tree_roundtrip_counterexample: such blocks are not producible by any BCL text) and is kept
    only as a statement about Bind:
    C05_bind_roundtrip: for every struct type of the supported family (`fam d`: exported, non-embedded,
@@ -32,6 +38,7 @@ From BCL Require Import Model.Reflect Proofs.ReflectProofs.
 Open Scope N_scope.
 From BCL Require Import Model.Api Model.Compile Spec.Syntax Spec.AstSem Proofs.T1Expr Proofs.T1Proofs Proofs.C05Tree.
 From BCL Require Import Proofs.LayoutTree Proofs.C05Tokens.
+From BCL Require Import Proofs.LayoutProofs Proofs.LexWrite.
 
 Theorem C05_bind_roundtrip : forall d tn fs l bt,
   fam d (TStruct tn fs) -> (d <= 64)%nat -> inhabits (TStruct tn fs) (GStruct l) ->
@@ -231,6 +238,80 @@ Print Assumptions C05_int_text.
 Theorem C05_quote_text : forall s, Forall byte_ok s -> unquote (quote_text s) = Some s.
 Proof. first [exact C05Tokens.unquote_quote_text | apply C05Tokens.unquote_quote_text]. Qed.
 Print Assumptions C05_quote_text.
+
+Theorem C05_lex_render : forall ts, Forall lexable ts ->
+  map strip (fst (lex [render ts])) = map strip ts ++ [(tEOF, [])].
+Proof. first [exact LexWrite.lex_render | apply LexWrite.lex_render]. Qed.
+Print Assumptions C05_lex_render.
+
+Theorem C05_lex_render_any_sep : forall sep ts, sep <> [] -> Forall ws_byte sep -> Forall lexable ts ->
+  map strip (fst (lex [render_sep sep ts])) = map strip ts ++ [(tEOF, [])].
+Proof. first [exact LexWrite.lex_render_any_sep | apply LexWrite.lex_render_any_sep]. Qed.
+Print Assumptions C05_lex_render_any_sep.
+
+Theorem C05_text_parse :
+  forall (ftext : N -> bytes) (t n : bytes) (fs : list (bytes * value)),
+       text_ok ftext (VBlock t n fs) ->
+       lex_ok ftext (VBlock t n fs) ->
+       ast_program (fst (lex [render (tokens_of_prog ftext (VBlock t n fs))])) = Some (prog_of_block (VBlock t n fs)).
+Proof. first [exact LexWrite.text_parse | apply LexWrite.text_parse]. Qed.
+Print Assumptions C05_text_parse.
+
+Theorem C05_text_roundtrip :
+  forall (ftext : N -> bytes) (d : nat) (tn : bytes) (fs : list field) (l : list goval) (bt name : bytes),
+       bfam d (TStruct tn fs) ->
+       (d <= 64)%nat ->
+       inhabits (TStruct tn fs) (GStruct l) ->
+       tn = [] \/ unsnake_eq tn bt = true ->
+       vals_ok (GStruct l) ->
+       gtext_ok ftext (GStruct l) ->
+       let b := tree_of (TStruct tn fs) (GStruct l) bt in
+       lex_ok ftext b ->
+       csize b + 1 < 2 ^ 64 ->
+       let src := render (tokens_of_prog ftext b) in
+       map strip (fst (lex [src])) = map strip (tokens_of_prog ftext b) /\
+       (let pr := parse_whole name src in
+        pr_ok pr = true /\
+        pr_oof pr = false /\
+        pr_panic pr = false /\
+        (let rr := execute (pr_prog pr) false false in
+         limit_res (rr_res rr) \/
+         (exists b' : value,
+            rr_res rr = VOk /\
+            rr_binding rr = BStruct b' /\
+            print_lines (rr_out rr) = [] /\
+            rr_warn rr = [] /\ bind (TgtPtr (TStruct tn fs) GZero) (BdStruct b') = BOk (GPtrTo (GStruct l))))).
+Proof. first [exact LexWrite.C05_text_roundtrip | apply LexWrite.C05_text_roundtrip]. Qed.
+Print Assumptions C05_text_roundtrip.
+
+Theorem C05_text_roundtrip_slice :
+  forall (ftext : N -> bytes) (d : nat) (tn : bytes) (fs : list field) (vals : list goval) 
+         (bt : bytes) (v0 : goval) (name : bytes),
+       bfam d (TStruct tn fs) ->
+       (d <= 64)%nat ->
+       vals <> [] ->
+       Forall (fun v : goval => inhabits (TStruct tn fs) v /\ vals_ok v) vals ->
+       Forall (fun v : goval => inhabits (TStruct tn fs) v /\ gtext_ok ftext v) vals ->
+       tn = [] \/ unsnake_eq tn bt = true ->
+       let bl := map (fun v : goval => tree_of (TStruct tn fs) v bt) vals in
+       word_ok bt ->
+       Forall (lex_ok ftext) bl ->
+       csizes bl + 1 < 2 ^ 64 ->
+       let src := render (tokens_of_progs ftext bt bl) in
+       map strip (fst (lex [src])) = map strip (tokens_of_progs ftext bt bl) /\
+       (let pr := parse_whole name src in
+        pr_ok pr = true /\
+        pr_oof pr = false /\
+        pr_panic pr = false /\
+        (let rr := execute (pr_prog pr) false false in
+         limit_res (rr_res rr) \/
+         (exists bl' : list value,
+            rr_res rr = VOk /\
+            rr_binding rr = BSlice bl' /\
+            print_lines (rr_out rr) = [] /\
+            rr_warn rr = [] /\ bind (TgtPtr (TSlice (TStruct tn fs)) v0) (BdSlice bl') = BOk (GPtrTo (GSlice vals))))).
+Proof. first [exact LexWrite.C05_text_roundtrip_slice | apply LexWrite.C05_text_roundtrip_slice]. Qed.
+Print Assumptions C05_text_roundtrip_slice.
 
 (* non-vacuity: an ordinary member of the family and a value of it *)
 Example C05_example_holds : fam 2 c05_type /\ inhabits c05_type c05_val.
